@@ -117,7 +117,13 @@ func (c *ChecksumChecker) checksum(t *ast.Task) (string, error) {
 	buf := make([]byte, 128*1024)
 	for _, f := range sources {
 		// also sum the filename, so checksum changes for renaming a file
-		if _, err := io.CopyBuffer(h, strings.NewReader(filepath.Base(f)), buf); err != nil {
+		// Hash the path of the file relative to the task's directory: with the base
+		// name alone, moving a file to another matched directory went unnoticed.
+		name, err := filepath.Rel(t.Dir, f)
+		if err != nil {
+			name = f
+		}
+		if _, err := io.CopyBuffer(h, strings.NewReader(filepath.ToSlash(name)), buf); err != nil {
 			return "", err
 		}
 		f, err := os.Open(f)
